@@ -632,8 +632,16 @@ def set_type_attr_cached(
 
         # If *NO* memoized type attribute cache has been monkey-patched into
         # this pure-Python __sizeof__() dunder method yet, do so.
+        #
+        # Note that this cache is monkey-patched under the attribute name given
+        # by the *VALUE* of the "_TYPE_ATTR_CACHE_NAME" global (i.e., the name
+        # subsequently looked up by the getattr() calls both above and in the
+        # get_type_attr_cached_or_sentinel() getter) rather than under the
+        # literal attribute name "_TYPE_ATTR_CACHE_NAME", which no getter ever
+        # looks up and which would thus silently discard this cache.
         if type_to_attr_name_to_value is None:
-            type_to_attr_name_to_value = cls_sizeof._TYPE_ATTR_CACHE_NAME = {}  # type: ignore[attr-defined]
+            type_to_attr_name_to_value = {}
+            setattr(cls_sizeof, _TYPE_ATTR_CACHE_NAME, type_to_attr_name_to_value)
         # Else, a memoized type attribute cache has already been monkey-patched
         # into this pure-Python __sizeof__() dunder method.
         #
